@@ -1,4 +1,5 @@
 HG = "cotengra/hypergraph.py"
+SC = "cotengra/scoring.py"
 VARIANTS = [
     dict(name="compressed edge set to chi", kind="break", file=HG,
          old="                self.size_dict[e_keep] = min(new_size, chi)", new="                self.size_dict[e_keep] = chi",
@@ -89,4 +90,17 @@ VARIANTS = [
          old="                            ci = bisect(scores[:i], score)\n                            scores.insert(ci, score)\n                            queue.insert(ci, child)\n                            # parent moves extra place to right\n                            i += 1\n",
          new="                            i += 1\n                            ci = bisect(scores, score, 0, i)\n                            scores.insert(ci, score)\n                            queue.insert(ci, child)\n",
          expect=("C20-TOPO", "_traverse_ordered")),
+    dict(name="tracker: step changes not reset", kind="break", file=SC,
+         old="    def update_pre_step(self):\n        self.size_change = 0\n        self.flops_change = 0", new="    def update_pre_step(self):\n        self.size_change = 0", expect=("C20-LEDGER", "update_pre_step")),
+    dict(name="tracker: only one operand leaves the total", kind="break", file=SC,
+         old="        self.size_change -= hg.node_size(i) + hg.node_size(j)", new="        self.size_change -= hg.node_size(i)", expect=("C20-LEDGER", "update_pre_contract")),
+    dict(name="tracker: peak candidate taken before the new tensor entered", kind="break", file=SC,
+         old="        self.total_size_post_contract = self.total_size + self.size_change\n", new="        self.total_size_post_contract = self.total_size + self.size_change - self.contracted_size\n",
+         expect=("C20-LEDGER", "update_post_contract")),
+    dict(name="tracker: update_score adds the size change instead of the contracted size to write", kind="break", file=SC,
+         old="        self.write = other.write + self.contracted_size", new="        self.write = other.write + self.size_change", expect=("C20-LEDGER", "update_score")),
+    dict(name="tracker: max size compared with the total", kind="break", file=SC,
+         old="        self.max_size = max(self.max_size, self.contracted_size)", new="        self.max_size = max(self.max_size, self.total_size)", expect=("C20-LEDGER", "update_post_step")),
+    dict(name="twin: tracker writes flops update as an assignment", kind="twin", file=SC,
+         old="        self.flops += self.flops_change", new="        self.flops = self.flops + self.flops_change"),
 ]
